@@ -419,10 +419,16 @@ func runC07(r *Run) {
 			if rawLen > 0 {
 				for _, bit := range pickBits(r, rawLen*8, r.N(8, 400)) {
 					mut := flipBit(gf.file, rawOff*8+bit)
+					_, derr := decompressBlock(c.Codec, mut[rawOff:rawOff+rawLen])
+					if derr == nil {
+						// the decompressor accepts the damaged bytes: the records are then arbitrary
+						// data (C06's business, in an isolated process), nothing for C07 to say
+						r.Count("damage/decompressor-accepts")
+						continue
+					}
 					res := readFileImpl(gf.g, mut, -1, false)
 					d2 := withKV(desc, "flipped_payload_bit", fmt.Sprintf("block %d bit %d", bi, bit))
 					id := addFileCase(r, gf, mut, -1, res, d2, fmt.Sprintf("raw/%d/%d/%x", bi, bit, gf.file))
-					_, derr := decompressBlock(c.Codec, mut[rawOff:rawOff+rawLen])
 					inCRC := c.Codec == "snappy" && bit >= (rawLen-4)*8
 					switch {
 					case res.Class == "panic":
